@@ -7,12 +7,16 @@ from pathlib import Path
 from pyvc.contract import *
 
 BEHAVIOURS = ["newer", "same", "older_subsecond", "older", "uptodate", "error", "garbage", "transport"]
+# further server behaviours, used in the extra histories (not in the full product, to keep it small): a newer profile
+# sent as an OFXv1 file in Windows-1252 with a non-ASCII institution name, and a newer profile whose date lies ahead of
+# the client's clock (server clock ahead / far future)
+EXTRA = ["newer_cp1252", "newer_future"]
 T0 = datetime.datetime(2022, 6, 1, 12, 0, 0, 500000, tzinfo=datetime.timezone.utc)
 _cache = {}
 
 
-def profile_bytes(dt, code=0):
-    key = (dt, code)
+def profile_bytes(dt, code=0, url="https://ofx.example.com/ofx", finame="Bank", version=203, charset=None):
+    key = (dt, code, url, finame, version, charset)
     if key in _cache:
         return _cache[key]
     from ofxtools import models
@@ -22,16 +26,22 @@ def profile_bytes(dt, code=0):
     sonrs = models.SONRS(status=models.STATUS(code=0, severity="INFO"), dtserver=datetime.datetime(2020, 1, 1, tzinfo=UTC), language="ENG")
     kw = {}
     if dt is not None:
-        core = MSGSETCORE("ENG", ver=1, url="https://ofx.example.com/ofx", ofxsec="NONE", transpsec=True, signonrealm="R",
+        core = MSGSETCORE("ENG", ver=1, url=url, ofxsec="NONE", transpsec=True, signonrealm="R",
                           syncmode="LITE", respfileer=False)
-        profrs = models.PROFRS(msgsetlist=models.MSGSETLIST(models.PROFMSGSET(profmsgsetv1=models.PROFMSGSETV1(msgsetcore=core))),
+        bank = models.BANKMSGSET(bankmsgsetv1=models.BANKMSGSETV1(msgsetcore=core, closingavail=True, emailprof=models.EMAILPROF(canemail=False, cannotify=False)))
+        profrs = models.PROFRS(msgsetlist=models.MSGSETLIST(models.PROFMSGSET(profmsgsetv1=models.PROFMSGSETV1(msgsetcore=core)), bank),
                                signoninfolist=models.SIGNONINFOLIST(models.SIGNONINFO(signonrealm="R", min=4, max=32, chartype="ALPHAORNUMERIC",
                                                                                       casesen=True, special=True, spaces=False, pinch=False)),
-                               dtprofup=dt.astimezone(UTC), finame="Bank", addr1="1 Main St", city="S", state="IL", postalcode="60000", country="USA")
+                               dtprofup=dt.astimezone(UTC), finame=finame, addr1="1 Main St", city="S", state="IL", postalcode="60000", country="USA")
         kw["profrs"] = profrs
     trnrs = models.PROFTRNRS(trnuid="1", status=models.STATUS(code=code, severity="INFO" if code in (0, 1) else "ERROR"), **kw)
     ofx = models.OFX(signonmsgsrsv1=models.SIGNONMSGSRSV1(sonrs=sonrs), profmsgsrsv1=models.PROFMSGSRSV1(trnrs))
-    b = bytes(str(make_header(version=203, newfileuid="NONE")), "utf_8") + ET.tostring(ofx.to_etree(), encoding="utf_8", method="html")
+    if charset is None:
+        b = bytes(str(make_header(version=version, newfileuid="NONE")), "utf_8") + ET.tostring(ofx.to_etree(), encoding="utf_8", method="html")
+    else:
+        # an OFXv1 file in a declared 8-bit character set (what many servers send)
+        hdr = str(make_header(version=102, newfileuid="NONE")).replace("ENCODING:USASCII", "ENCODING:USASCII").replace("CHARSET:NONE", f"CHARSET:{charset}")
+        b = hdr.encode("ascii") + ET.tostring(ofx.to_etree(), encoding="unicode", method="html").encode({"1252": "cp1252", "ISO-8859-1": "latin_1"}[charset])
     _cache[key] = b
     return b
 
@@ -75,6 +85,12 @@ def run_history(it, fn, a):
             if b == "newer":
                 clock = max(clock, base) + datetime.timedelta(days=1, milliseconds=250)
                 resp_dt = clock; resp = profile_bytes(resp_dt)
+            elif b == "newer_cp1252":
+                clock = max(clock, base) + datetime.timedelta(days=1, milliseconds=250)
+                resp_dt = clock; resp = profile_bytes(resp_dt, finame="Caf\u00e9 Bank \u20ac", charset="1252")
+            elif b == "newer_future":
+                clock = max(clock, base, datetime.datetime(2035, 1, 1, 6, 0, 0, 250000, tzinfo=datetime.timezone.utc)) + datetime.timedelta(days=1)
+                resp_dt = clock; resp = profile_bytes(resp_dt)
             elif b == "same":
                 resp_dt = base; resp = profile_bytes(resp_dt)
             elif b == "older_subsecond":
@@ -105,7 +121,7 @@ def run_history(it, fn, a):
                 want = held_dt if held is not None else datetime.datetime(1990, 1, 1, tzinfo=datetime.timezone.utc)
                 if asked != want:
                     problems.append(f"step {i} {b}: asked with {asked}, held {want}")
-            accept_new = b in ("newer", "same") or (held is None and b in ("older_subsecond", "older"))
+            accept_new = b in ("newer", "same", "newer_cp1252", "newer_future") or (held is None and b in ("older_subsecond", "older"))
             if accept_new:
                 if not ok or out != resp:
                     problems.append(f"step {i} {b}: expected the new profile, got {out!r:.80}")
@@ -142,6 +158,11 @@ def cases(tier):
         for h in itertools.product(BEHAVIOURS, repeat=ln):
             for restart in ([None] + list(range(1, ln)) if ln <= 3 else [None, 2]):
                 out.append([list(h), restart])
+    for x in EXTRA:
+        for tail in (["uptodate"], ["newer"], ["older"], ["same"], ["uptodate", "newer"]):
+            for restart in (None, 1):
+                out.append([["newer", x] + tail, restart])
+                out.append([[x] + tail, restart])
     return out
 
 
